@@ -48,6 +48,7 @@ CRIT = {
     "box_per_label": dict(max_x=[12.0, 8.0], max_y=[6.0, 4.0]),
     "ring": dict(max_d=[12.0, 12.0], min_d=[2.0, 2.0]),
     "wide": dict(max_x=[60.0, 60.0], max_y=[60.0, 60.0]),
+    "ring_nonuni": dict(max_d=[12.5, 11.0], min_d=[10.0, 2.0]),      # per-label inner radii that differ widely (mean 6.0)
 }
 THR = {"tight": [0.5, 0.5], "loose": [2.0, 2.0], "per_label": [0.5, 2.0], "zero": [0.0, 0.0]}
 POLICIES = ["DEFAULT", "ALLOW_UNKNOWN", "ALLOW_ANY"]
